@@ -23,7 +23,8 @@ RULE = ('case = one p2hex run over 1-2 generated code files (1-5 selected record
         'and near 4 GiB, plus unselected records of other segments / families) x explicit or default format x random option set; '
         'non-trivial = at least one data line decoded; distinct = distinct (format, family granularity, address zone, option-name set, '
         'line-length class, record-count class, multi-line?)')
-ASSUMPTIONS = ['vf/hexfmt.py implements the public format definitions (self-test on published vectors runs before every check run)',
+ASSUMPTIONS = ['vf/hexfmt.py implements the public format definitions (self-test on published vectors, and on S-record / Intel hex files '
+               'encoded by GNU objcopy where installed, runs before every check run)',
                'AVR program words are stored low byte first in the code file (Atmel generic lines carry the word value)',
                'for S-record / MOS / Tektronix output of word-oriented targets the address field counts address units of the target '
                '(manual: "address specifications always relate to the granularity of the processor")',
@@ -38,9 +39,11 @@ MANIFEST = dict(
          'the CPU family) under -r/-a/-R/-l/-M/+5/-i/-m/-e/-avrlen/-segment/-f/-cformat and file offsets, every line p2hex wrote was accepted by the '
          'format grammar, every checksum / byte count / S5 count / MOS record count verified, and decoding gave exactly the address-to-byte mapping of '
          'the selected, clipped, relocated records; entry address and terminator records were as documented; addresses beyond a format\'s reach produced the documented warning.',
-    note='TI-DSK and Mico8 output is not decoded (not in the property).  Not generated because the manual is silent: -m 1..3 outside the Intel formats, '
+    note='Trusts vf/hexfmt.py and vf/pfile.py.  TI-DSK and Mico8 output is not decoded (not in the property).  Not generated because the manual is silent: -m 1..3 outside the Intel formats, '
          '-m 2/3 with granularity other than 2 or with Intel16/32, Atmel format for byte-addressed records, C format for word-addressed records, overlapping '
-         'records, negative -R, entry addresses together with -R/-a/offset, undocumented -s/-d/-k.  A Tektronix termination block is accepted but not demanded '
+         'records, negative -R, -l below one address unit, Intel16 addresses $100000-$10FFEF, default-format (variant unspecified) Intel output above 64 KiB, '
+         'undocumented -s/-d/-k; entry addresses are not judged together with -R/-a/offset, for the C format, or when wider than the record that carries them.  '
+         'A Tektronix termination block is accepted but not demanded '
          '(the manual lists -e only for DSK, Intel and Motorola).  Odd -l values: the English manual says rounded down, the German one rounded up; the '
          'monitor only demands that no line is longer than the next even number.')
 REGISTERED = True
@@ -79,8 +82,54 @@ BOUNDARIES = [0x10000, 0x10000, 0x20000, 0x100000, 0x1000000, 0x80000000]
 
 def prepare(bins, tier, seed):
     bad = hexfmt.selftest()
+    bad += objcopy_crosscheck()
     if bad:
         raise RuntimeError('hexfmt self-test failed (decoder bug, not an AS defect): %s' % bad[:5])
+
+
+def objcopy_crosscheck():
+    """second opinion on the S-record / Intel hex decoders: a blob encoded by GNU objcopy (an independent
+    implementation of the public definitions) must decode to itself.  Skipped when objcopy is not installed."""
+    import subprocess
+    import tempfile
+    oc = shutil.which('objcopy')
+    if not oc:
+        return []
+    bad = []
+    root = os.path.join(os.path.dirname(os.path.dirname(os.path.dirname(os.path.abspath(__file__)))), '.work')
+    os.makedirs(root, exist_ok=True)
+    wd = tempfile.mkdtemp(prefix='C06.selftest.', dir=root)
+    try:
+        blob = bytes((i * 37 + 11) & 0xff for i in range(700))
+        src = os.path.join(wd, 'blob.bin')
+        with open(src, 'wb') as f:
+            f.write(blob)
+        for fmt, base, extra in (('srec', 0x0, []), ('srec', 0xff00, []), ('srec', 0xffff00, []), ('srec', 0x100, ['--srec-forceS3']),
+                                 ('srec', 0x10, ['--srec-len=7']),
+                                 ('ihex', 0x0, []), ('ihex', 0xff00, []), ('ihex', 0xfff00, []), ('ihex', 0x7fffff00, [])):
+            dst = os.path.join(wd, 'blob.' + fmt)
+            try:
+                r = subprocess.run([oc, '-I', 'binary', '-O', fmt, '--change-addresses', hex(base)] + extra + [src, dst],
+                                   stdout=subprocess.PIPE, stderr=subprocess.PIPE, timeout=300)
+            except (OSError, subprocess.TimeoutExpired):
+                continue
+            if r.returncode != 0:
+                continue
+            with open(dst) as f:
+                text = f.read().replace('\r\n', '\n')
+            d = hexfmt.decode_srec(text) if fmt == 'srec' else hexfmt.decode_ihex(text)
+            if d.issues:
+                bad.append('objcopy %s @%x: %s' % (fmt, base, d.issues[:3]))
+                continue
+            m = {}
+            for rec in d.data_recs():
+                for i, b in enumerate(rec.data):
+                    m[rec.addr_of(i)] = b
+            if m != {base + i: b for i, b in enumerate(blob)}:
+                bad.append('objcopy %s @%x: decoded map differs from the blob' % (fmt, base))
+    finally:
+        shutil.rmtree(wd, ignore_errors=True)
+    return bad
 
 
 def plan(tier, seed):
